@@ -81,6 +81,23 @@ func (c *Chooser) Choices() []int {
 // recovered and returned (with stack). Panics in other goroutines are not
 // recoverable by design: harness bodies wrap the calls they make in Go().
 func Bubble(t *testing.T, f func()) (pv any, stack string) {
+	defer func() {
+		// every goroutine of the bubble is durably blocked and no timer is pending: some call of the execution can
+		// never return. synctest reports that by panicking here, outside the bubble; it is the verdict of this one
+		// execution (returned like a panic of the body, with the stacks of the goroutines left behind), not the end
+		// of the cell. The blocked goroutines stay behind; each execution builds its own world, so they are inert.
+		if r := recover(); r != nil {
+			if d, ok := r.(ErrDiverged); ok {
+				panic(d)
+			}
+			if !strings.Contains(fmt.Sprint(r), "all goroutines in bubble are blocked") {
+				panic(r)
+			}
+			buf := make([]byte, 1<<18)
+			buf = buf[:runtime.Stack(buf, true)]
+			pv, stack = "deadlock: every goroutine of the execution is blocked for good (a call never returns)", bubbleStacks(string(buf))
+		}
+	}()
 	synctest.Test(t, func(t *testing.T) {
 		core.Reset()
 		defer func() {
@@ -630,4 +647,18 @@ func BlockedSites() []string {
 	}
 	sort.Strings(out)
 	return out
+}
+
+// bubbleStacks keeps the goroutines of a full stack dump that are durably blocked inside a bubble.
+func bubbleStacks(dump string) string {
+	var keep []string
+	for _, g := range strings.Split(dump, "\n\n") {
+		if strings.Contains(strings.SplitN(g, "\n", 2)[0], "synctest bubble") {
+			keep = append(keep, g)
+		}
+	}
+	if len(keep) > 12 {
+		keep = keep[:12]
+	}
+	return strings.Join(keep, "\n\n")
 }
